@@ -741,6 +741,9 @@ def run(ctx):
 
     shutil.copy(PROPS / "Prop_C06.v", rd / "Prop_C06.v")
     ctx.prove(rd / "Prop_C06.v", "Prop_C06.v (theorems about V2PModel at ROps)", "theorem-file")
+    # static tie: the raise condition of desired_pressure_status re-translated and proved equal to pressure_status
+    from props import prange_static
+    prange_static.static_tie(ctx, rd)
 
     tm["theorems_s"] = round(time.time() - t0 - tm["calculator_tie_s"], 2)
     t0 = time.time()
